@@ -13,6 +13,7 @@ bound on the distance between two nodes of the map). -/
 import JumanjiModel.Bridge.Json
 import JumanjiModel.Env.MultiCVRP.Model
 import JumanjiModel.Env.MultiCVRP.Bounds
+import JumanjiModel.Env.MultiCVRP.Generator
 import JumanjiModel.Prim.Float
 open Lean Jb
 
@@ -129,7 +130,31 @@ def opJudge : Op := fun j => do
   let ill : Json := if allHon then .null else jBool (decide (IllegalIgnored c s a s'))
   pure (jObj [("illegal_ok", ill)])
 
-/-- C10 certificates on a reset state -/
+/-- the raw draw JSON {"u_coords", "raw_demands", "u_win", "u_early", "u_late"} (what the adapter recomputes from
+the reset key: `jax.random.uniform(k, shape)` / `jax.random.randint(k, shape, 0, demand_max)` with the generator's
+own sub-keys) -/
+def getRaw (j : Json) : Except String RawDraw := do
+  pure { uCoords := ← fRatGrid j "u_coords", rawDemands := ← fInts j "raw_demands", uWin := ← fRats j "u_win",
+         uEarly := ← fRats j "u_early", uLate := ← fRats j "u_late" }
+
+def getGenCfg (cfg : Json) : Except String GenCfg := do
+  pure { mapMax := ← fRat cfg "map_max", demandMax := ← fInt cfg "demand_max",
+         maxStart := ← fRat cfg "max_start_window", windowLen := ← fRat cfg "window_length",
+         earlyLo := ← fRat cfg "coef_early_min", earlyHi := ← fRat cfg "coef_early_max",
+         lateLo := ← fRat cfg "coef_late_min", lateHi := ← fRat cfg "coef_late_max" }
+
+/-- which field of the reset state differs from the replayed generator (for the failure message) -/
+def replayDiff (s t : State) : List String :=
+  (if s.coords = t.coords then [] else ["coordinates"]) ++ (if s.demands = t.demands then [] else ["demands"]) ++
+  (if s.winStart = t.winStart then [] else ["win_start"]) ++ (if s.winEnd = t.winEnd then [] else ["win_end"]) ++
+  (if s.coefEarly = t.coefEarly then [] else ["coef_early"]) ++ (if s.coefLate = t.coefLate then [] else ["coef_late"]) ++
+  (if s = { t with coords := s.coords, demands := s.demands, winStart := s.winStart, winEnd := s.winEnd,
+                   coefEarly := s.coefEarly, coefLate := s.coefLate, mask := s.mask } then [] else ["vehicles/order/step_count"]) ++
+  (if s.mask = t.mask then [] else ["action_mask"])
+
+/-- C10 certificates on a reset state.  With the optional request field "raw" (the raw random numbers behind that
+reset state) two more: `raw_valid` = `validRaw` ∧ `GenOK`, and `generator_replay` = the implementation's reset
+state IS `generateRaw rnd c nV g raw` (all fields, exact equality of the float32 values) -/
 def opInstance : Op := fun j => do
   let c ← getCfg j
   let cfg ← field j "cfg"
@@ -142,14 +167,25 @@ def opInstance : Op := fun j => do
   let (s, D, d0) ← getFull j
   -- the adapter's "full load" test generator deliberately exceeds the fleet capacity
   let fleet : Json := if fullLoad then .null else jBool (decide (s.demands.sum ≤ c.maxCap * nV))
-  pure (jObj [("demands_le_capacity", jBool (decide (demandsOK c demandMax s))),
+  let rawj ← fOpt j "raw" pure
+  let extra ← match rawj with
+    | none => pure []
+    | some rj => do
+      let raw ← getRaw rj
+      let g ← getGenCfg cfg
+      let rnd ← getRnd j
+      let t := generateRaw rnd c nV g raw
+      pure [("raw_valid", jBool (decide (validRaw c g raw) && decide (GenOK c nV g))),
+            ("generator_replay", jBool (decide (s = t))),
+            ("generator_replay_diff", jList jStr (replayDiff s t))]
+  pure (jObj (extra ++ [("demands_le_capacity", jBool (decide (demandsOK c demandMax s))),
               ("total_demand_le_fleet_capacity", fleet),
               ("coordinates_in_box", jBool (decide (coordsInBox mapMax s))),
               ("windows_ok", jBool (decide (windowsOK maxStart winLen (1 / 100000) s))),
               ("initial_state", jBool (decide (IsInitial c nV s))),
               ("demands0_is_demands", jBool (decide (d0 = s.demands))),
               ("feasible", jBool (decide (Feasible c s.demands s))),
-              ("dist_matches_coordinates", jBool (distMatches (1 / 100000) s.coords D))])
+              ("dist_matches_coordinates", jBool (distMatches (1 / 100000) s.coords D))]))
 
 def getLim (cfg : Json) : Except String Lim := do
   pure { mapMax := ← fRat cfg "map_max", demandMax := ← fInt cfg "demand_max",
